@@ -789,7 +789,9 @@ fn hist(args: &[&str]) -> Obs {
 // ---------------------------------------------------------------------------------------------
 // stage C: raw trace
 fn title_code(t: &str) -> (i64, i64) {
-    let mut s = t;
+    // fluent wraps the placeable of "{ $name } copy" in the isolation marks U+2068 / U+2069
+    let plain: String = t.chars().filter(|c| *c != '\u{2068}' && *c != '\u{2069}').collect();
+    let mut s = plain.as_str();
     let mut dups = 0;
     while let Some(x) = s.strip_suffix(" copy") {
         s = x;
